@@ -32,50 +32,98 @@ theorem decodes_snoc (σ : BState) (bytes : Bytes) (rs : List Response) (r : Res
     obtain ⟨rest0, h1, h2⟩ := h
     exact ⟨rest0, h1, ih .initial rest0 h2⟩
 
-/-- attribution of the consumed responses to what callers and the event stream observed -/
-inductive Attr : List Response → List (Nat × Response) → List Bytes → Prop
+/-- attribution of the consumed responses (each with its consumer) to what callers and the event
+stream observed -/
+inductive Attr : List (Consumer × Response) → List (Nat × Response) → List Bytes → Prop
   | nil : Attr [] [] []
-  | reply {rs resp ev} (id : Nat) (r : Response) : Attr rs resp ev → Attr (rs ++ [r]) (resp ++ [(id, r)]) ev
-  | idle {rs resp ev} (r : Response) : Attr rs resp ev → Attr (rs ++ [r]) resp (ev ++ eventsOfReply r)
-  | verdict {rs resp ev} (r : Response) : Attr rs resp ev → Attr (rs ++ [r]) resp ev
+  | reply {cs resp ev} (id : Nat) (r : Response) :
+      Attr cs resp ev → Attr (cs ++ [(.reply id, r)]) (resp ++ [(id, r)]) ev
+  | idle {cs resp ev} (r : Response) : Attr cs resp ev → Attr (cs ++ [(.idle, r)]) resp (ev ++ eventsOfReply r)
+  | verdict {cs resp ev} (r : Response) : Attr cs resp ev → Attr (cs ++ [(.verdict, r)]) resp ev
 
-/-- the invariant: `D` = bytes delivered since the start of the run -/
+/-- the invariant: `D` = bytes delivered since the start of the run; `cs` = the responses consumed
+so far, each with its consumer -/
 def Good (s : St) (D : Bytes) : Prop :=
-  ∃ rs, (∀ q, Decodes .initial (D ++ q) rs (future s q)) ∧ Attr rs (responses s.obs) (eventsOf s.obs)
+  ∃ cs : List (Consumer × Response),
+    (∀ q, Decodes .initial (D ++ q) (cs.map (·.2)) (future s q)) ∧
+    Attr cs (responses s.obs) (eventsOf s.obs) ∧
+    -- write discipline: the reply-producing lines written so far are, in order, exactly the
+    -- consumers of the responses consumed so far, followed by the one reply the task waits for
+    (Terminal s ∨ replyWrites s.obs = cs.map (·.1) ++ outstanding s.pc)
 
 /-- the poll of the receive future at `s` ends with end of stream, an I/O error or an invalid message -/
 def Broken (s : St) : Prop :=
   ∃ it : Item, it.isResp = false ∧ (pollRecv { s with fresh := false } (σcur s)).2 = .ready it
 
+theorem not_terminal_of_step {s s' : St} {rf : Bool} (h : step s rf = some s') : ¬ Terminal s := by
+  intro ht
+  rcases ht with ht | ht
+  · rw [step_exited s rf ht] at h; cases h
+  · rw [step_failed s rf ht] at h; cases h
+
 theorem good_step (s s' : St) (rf : Bool) (D : Bytes) (hc : s.pc ≠ .connecting) (hg : Good s D)
     (h : step s rf = some s') : Good s' D ∨ Broken s := by
-  obtain ⟨rs, hd, ha⟩ := hg
+  obtain ⟨cs, hd, ha, hwd⟩ := hg
+  have hwd' : replyWrites s.obs = cs.map (·.1) ++ outstanding s.pc := by
+    rcases hwd with ht | hw
+    · exact absurd ht (not_terminal_of_step h)
+    · exact hw
   cases step_effect s s' rf hc h with
-  | silent hf hq =>
+  | silent hf hq hw =>
     left
-    refine ⟨rs, fun q => ?_, ?_⟩
+    refine ⟨cs, fun q => ?_, ?_, ?_⟩
     · rw [hf q]; exact hd q
     · rw [hq.1, hq.2]; exact ha
+    · rcases hw with ht | ⟨Δ, h1, h2⟩
+      · exact Or.inl ht
+      · right; rw [h1, hwd', h2, List.append_assoc]
   | broken it hit hp _ => right; exact ⟨it, hit, hp⟩
-  | consumed r hf hσ hdel =>
+  | consumed r hf hσ hdel hw =>
     left
-    refine ⟨rs ++ [r], fun q => ?_, ?_⟩
-    · have := hd q
+    -- the consumer is the one the program point was waiting for
+    have key : ∀ c : Consumer, outstanding s.pc = [c] →
+        Attr (cs ++ [(c, r)]) (responses s'.obs) (eventsOf s'.obs) := by
+      intro c hc'
+      unfold Delivery at hdel
+      split at hdel
+      · rename_i req σ hpc
+        rw [hpc] at hc'; simp only [outstanding, List.cons.injEq, and_true] at hc'; subst hc'
+        rw [hdel.1, hdel.2]; exact .reply _ r ha
+      · rename_i σ hpc
+        rw [hpc] at hc'; simp only [outstanding, List.cons.injEq, and_true] at hc'; subst hc'
+        rw [hdel.1, hdel.2]; exact .idle r ha
+      · rename_i req σ hpc
+        rw [hpc] at hc'; simp only [outstanding, List.cons.injEq, and_true] at hc'; subst hc'
+        rw [hdel.1, hdel.2]; exact .idle r ha
+      · rename_i h1 h2 h3
+        -- only `pwWait` is left among the program points that wait for a reply
+        cases hpc : s.pc with
+        | pwWait σ =>
+          rw [hpc] at hc'; simp only [outstanding, List.cons.injEq, and_true] at hc'; subst hc'
+          rw [hdel.1, hdel.2]; exact .verdict r ha
+        | waiting req σ => exact absurd hpc (h1 req σ)
+        | idling σ => exact absurd hpc (h2 σ)
+        | cancelWait req σ => exact absurd hpc (h3 req σ)
+        | _ => rw [hpc] at hc'; simp [outstanding] at hc'
+    have dec : ∀ c : Consumer, ∀ q, Decodes .initial (D ++ q) ((cs ++ [(c, r)]).map (·.2)) (future s' q) := by
+      intro c q
+      have := hd q
       rw [hf q] at this
-      refine decodes_snoc _ _ rs r _ _ this ?_
+      rw [List.map_append]
+      refine decodes_snoc _ _ _ r _ _ this ?_
       unfold future
       rw [hσ]
-    · unfold Delivery at hdel
-      split at hdel
-      · rw [hdel.1, hdel.2]; exact .reply _ r ha
-      · rw [hdel.1, hdel.2]; exact .idle r ha
-      · rw [hdel.1, hdel.2]; exact .idle r ha
-      · rw [hdel.1, hdel.2]; exact .verdict r ha
+    obtain ⟨⟨c, hc'⟩, hw⟩ := hw
+    refine ⟨cs ++ [(c, r)], dec c, key c hc', ?_⟩
+    rcases hw with ht | hw
+    · exact Or.inl ht
+    · right
+      rw [hw, hwd', hc', List.map_append]; simp
 
 /-- bytes arrive -/
 theorem good_deliver (s : St) (D b : Bytes) (hg : Good s D) : Good { s with avail := s.avail ++ b } (D ++ b) := by
-  obtain ⟨rs, hd, ha⟩ := hg
-  refine ⟨rs, fun q => ?_, ha⟩
+  obtain ⟨rs, hd, ha, hw⟩ := hg
+  refine ⟨rs, fun q => ?_, ha, hw⟩
   have := hd (b ++ q)
   simpa [future, resid, σcur, List.append_assoc] using this
 
@@ -84,9 +132,9 @@ def EnvSame (s s' : St) : Prop :=
   s'.pc = s.pc ∧ s'.bstash = s.bstash ∧ s'.buf = s.buf ∧ s'.avail = s.avail ∧ s'.obs = s.obs
 
 theorem good_env (s s' : St) (D : Bytes) (he : EnvSame s s') (hg : Good s D) : Good s' D := by
-  obtain ⟨rs, hd, ha⟩ := hg
+  obtain ⟨rs, hd, ha, hw⟩ := hg
   obtain ⟨e1, e2, e3, e4, e5⟩ := he
-  refine ⟨rs, fun q => ?_, by rw [e5]; exact ha⟩
+  refine ⟨rs, fun q => ?_, by rw [e5]; exact ha, by unfold Terminal at *; rw [e5, e1]; exact hw⟩
   have : future s' q = future s q := by simp [future, resid, σcur, e1, e2, e3, e4]
   rw [this]; exact hd q
 
@@ -169,11 +217,12 @@ inductive Run (s0 : St) : St → Bytes → Prop
 
 /-- the state right after the greeting: nothing buffered, nothing observed yet by callers -/
 def AfterGreeting (s0 : St) : Prop :=
-  s0.pc ≠ .connecting ∧ resid s0 = (.initial, []) ∧ responses s0.obs = [] ∧ eventsOf s0.obs = []
+  s0.pc ≠ .connecting ∧ resid s0 = (.initial, []) ∧ responses s0.obs = [] ∧ eventsOf s0.obs = [] ∧
+  replyWrites s0.obs = outstanding s0.pc
 
 theorem good_start (s0 : St) (h : AfterGreeting s0) : Good s0 [] := by
-  obtain ⟨_, h2, h3, h4⟩ := h
-  refine ⟨[], fun q => ?_, by rw [h3, h4]; exact .nil⟩
+  obtain ⟨_, h2, h3, h4, h5⟩ := h
+  refine ⟨[], fun q => ?_, by rw [h3, h4]; exact .nil, Or.inr (by simp [h5])⟩
   simp [Decodes, future, h2]
 
 /-- **every run decodes the delivered stream in order, exactly once, and attributes every response** -/
@@ -191,8 +240,21 @@ theorem run_decodes (s0 s : St) (D : Bytes) (h0 : AfterGreeting s0) (hr : Run s0
 
 /-- non-vacuity: the two states in which the task starts after the greeting -/
 example : AfterGreeting { pc := .spawned, obs := [.connected (.ok (str "0.23.5"))] } := by
-  refine ⟨by simp, by simp [resid, σcur], by simp [responses], by simp [eventsOf]⟩
-example : AfterGreeting { pc := .pwWait .initial, fresh := true, obs := [.wrote (str "password x\n")] } := by
-  refine ⟨by simp, by simp [resid, σcur], by simp [responses], by simp [eventsOf]⟩
+  refine ⟨by simp, by simp [resid, σcur], by simp [responses], by simp [eventsOf], by simp [replyWrites, outstanding]⟩
+example : AfterGreeting { pc := .pwWait .initial, fresh := true, obs := [.wrote (str "password x\n") .password] } := by
+  refine ⟨by simp, by simp [resid, σcur], by simp [responses], by simp [eventsOf],
+    by simp [replyWrites, outstanding, WKind.consumer]⟩
+
+/-- **one outstanding**: at every reachable state the reply-producing lines written exceed the
+responses consumed by at most one — the task never writes a line that provokes a reply while the
+reply to an earlier one has not been consumed -/
+theorem one_outstanding (s0 s : St) (D : Bytes) (h0 : AfterGreeting s0) (hr : Run s0 s D) :
+    Terminal s ∨ ∃ cs : List (Consumer × Response),
+      (∀ q, Decodes .initial (D ++ q) (cs.map (·.2)) (future s q)) ∧
+      replyWrites s.obs = cs.map (·.1) ++ outstanding s.pc ∧ (outstanding s.pc).length ≤ 1 := by
+  obtain ⟨cs, hd, _, hw⟩ := (run_decodes s0 s D h0 hr).2
+  rcases hw with ht | hw
+  · exact Or.inl ht
+  · exact Or.inr ⟨cs, hd, hw, by cases s.pc <;> simp [outstanding]⟩
 
 end Mpd.Loop
